@@ -447,6 +447,9 @@ func main() {
 	if len(notes) > 0 {
 		cov["notes"] = notes
 	}
+	if known == nil {
+		known = []string{}
+	}
 	cov["known_findings_replayed"] = known
 	if len(infra) > 0 {
 		cov["inconclusive"] = infra
